@@ -684,6 +684,7 @@ func trailersAfterDrain(c *core.Ctx) {
 				sites++
 				key := "trailers/" + b.name
 				drained := true
+				mixes := false
 				n, _ := astx.ForEachPathTo(info, b.b, call, func(s *astx.State) {
 					if s.CountCalls(func(cc *ast.CallExpr) bool {
 						g := astx.CalleeFunc(info, cc)
@@ -691,13 +692,11 @@ func trailersAfterDrain(c *core.Ctx) {
 					}) == 0 {
 						drained = false
 					}
-				})
-				mixes := false
-				for _, other := range astx.Calls(b.b) {
-					if isMethodNamed(info, other, "WebTrailer") {
+					// both sources on one path (a body that chooses between them by the protocol is fine)
+					if s.CountCalls(func(cc *ast.CallExpr) bool { return isMethodNamed(info, cc, "WebTrailer") }) > 0 {
 						mixes = true
 					}
-				}
+				})
 				c.Check(drained && n > 0 && !mixes, key, call.Pos(), "%s reads the HTTP trailers after draining the body (drained first: %v) and does not mix them with gRPC-Web trailers (mixes: %v)", b.name, drained && n > 0, mixes)
 			}
 		}
